@@ -379,6 +379,20 @@ def check_disjoint_set(fx, rep):
         # the root test compares the stored parent with the queried value
         eqs = [n for n, _ in F.walk(root) if n.get("k") == "Binary" and n["op"] == "Eq"]
         rep.oblige(len(eqs) >= 1, "R19.4", "find-root-test", F.loc(f["span"]), "find() has no `parent == value` root test")
+    # sets() hands out every set: its roots are enumerated from the representative map itself (every occupied slot), not from an
+    # index range whose end is a *count* - keys need not be dense
+    ss = fns.get("sets")
+    if rep.anchor("R19.2", ss is not None, "DisjointSet::sets"):
+        root = ss["hir"]["value"]
+        from_map = False
+        from_range = False
+        for n, ps in F.calls(root):
+            if n.get("k") == "MethodCall" and n["method"] in ("iter", "indices", "keys", "into_iter") and field_of_self(T.term(n["recv"], T.Env()), reps):
+                from_map = True
+        for n, ps in F.walk(root):
+            if n.get("k") == "Struct" and "ops::Range" in str(n.get("adt")):
+                from_range = True
+        rep.oblige(from_map and not from_range, "R19.2", "sets-enumerates-all", F.loc(ss["span"]), "sets() does not enumerate the roots from the representative map itself (it walks an index range): a root whose key is not below the number of stored elements is skipped, so its set is never handed out" if not from_map or from_range else "", sample={"rule": "R19.2", "roots_from": "representative map" if from_map and not from_range else "index range"})
     # insert makes a singleton: reps.insert(&value, value)
     i = fns.get("insert")
     if rep.anchor("R19.4", i is not None, "DisjointSet::insert"):
